@@ -869,6 +869,35 @@ func ruleH7(c *Ctx) {
 						return x.Y
 					}
 				}
+			case *ssa.Call:
+				// index computed by a helper: ht.bucketIndex(h) = h & (len(ht.table)-1)
+				if cal := x.Call.StaticCallee(); cal != nil && cal.Blocks != nil && fnPkgPath(cal) == modPath+"/starlark" {
+					var hp ssa.Value
+					eachInstr(cal, func(in ssa.Instruction) {
+						ret, ok := in.(*ssa.Return)
+						if !ok || len(ret.Results) != 1 {
+							return
+						}
+						r := ret.Results[0]
+						if cv, ok := r.(*ssa.Convert); ok {
+							r = cv.X
+						}
+						if bo, ok := r.(*ssa.BinOp); ok && bo.Op == token.AND {
+							if derivesFromLen(bo.Y) {
+								hp = bo.X
+							} else if derivesFromLen(bo.X) {
+								hp = bo.Y
+							}
+						}
+					})
+					if prm, ok := hp.(*ssa.Parameter); ok {
+						for pi, q := range cal.Params {
+							if q == prm && pi < len(x.Call.Args) {
+								return x.Call.Args[pi]
+							}
+						}
+					}
+				}
 			}
 			break
 		}
